@@ -50,6 +50,8 @@ def observe_init(ss, consistent=True, known_at_limit=()):
         for dname, dsc in mdl.discrete.items():
             if mdl.class_name in ("PVD1", "ESD1", "EV1", "EV2") and dname[:2] in ("FL", "VL", "VQ"):
                 continue        # region detectors of the distributed generators (frequency / voltage bands), not limits on a quantity
+            if dsc.__class__.__name__.startswith("DeadBand"):
+                continue        # a dead band is a region of operation, not a limit on a quantity: being outside it is consistent data
             if isinstance(dsc, Limiter) and dsc.enable:
                 zi = np.atleast_1d(dsc.zi)
                 if len(zi) == mdl.n:
